@@ -304,15 +304,29 @@ func (s *c02State) mainCode() func() c02TokenResult {
 	legs := s.legs()
 	clientID := c02ClientIDs[0] // the holder node's client_id (must be a URL: it is used for metadata discovery)
 	var presDefects, tokenDefects []c02Defect
+	// skip: the client goes to the token endpoint INSTEAD of presenting (all, or the remaining) presentations, with a
+	// "code" built from strings it legitimately knows (the verifier's state, its nonce) and other stores' key prefixes
+	var skip *c02Defect
 	for _, d := range c.Defects {
 		switch d.Name {
-		case "code_wrong", "code_reused", "token_client_id_wrong", "verifier_wrong", "verifier_missing":
+		case "code_wrong", "code_reused", "token_client_id_wrong", "verifier_wrong", "verifier_missing", "code_path_variant":
 			tokenDefects = append(tokenDefects, d)
+		case "code_instead_of_presentation":
+			d := d
+			skip = &d
 		default:
 			presDefects = append(presDefects, d)
 		}
 	}
 	defLeg := c.Leg % len(legs)
+	legsToRun := len(legs)
+	if skip != nil {
+		defLeg = -1 // the legs that are still run are run honestly
+		legsToRun = 0
+		if len(legs) == 2 && skip.Arg%2 == 1 {
+			legsToRun = 1
+		}
+	}
 	x.Classf("code:legs=%d", len(legs))
 
 	cs, err := s.authorize(s.scope().Name, clientID, "main")
@@ -325,6 +339,9 @@ func (s *c02State) mainCode() func() c02TokenResult {
 	code := ""
 	usedNonces := map[string]bool{}
 	for i, leg := range legs {
+		if i >= legsToRun {
+			break
+		}
 		nonce := s.nonceFor(cs.State, usedNonces)
 		if nonce == "" {
 			x.Fatalf("no OpenID4VP nonce stored for leg %d", i)
@@ -337,22 +354,45 @@ func (s *c02State) mainCode() func() c02TokenResult {
 			for _, d := range presDefects {
 				switch d.Name {
 				case "nonce_foreign":
-					if d.Arg%2 == 0 {
+					// the presentation must carry exactly the nonce the verifier handed out for this session
+					switch d.Arg % 6 {
+					case 0:
 						other, err := s.authorize(s.scope().Name, clientID, "other")
 						x.NoErr(err, "second authorize")
 						vpNonce = s.nonceFor(other.State, nil)
-					} else {
+					case 1:
 						vpNonce = "never-issued-nonce"
+					case 2:
+						vpNonce = "./" + nonce
+					case 3:
+						vpNonce = "../nonce/" + nonce
+					case 4:
+						vpNonce = "x/../" + nonce
+					case 5:
+						vpNonce = nonce + "/"
 					}
+					x.Classf("nonce_foreign:variant=%d", d.Arg%6)
 					defects = append(defects, d.Name)
 				case "state_wrong":
-					if d.Arg%2 == 0 {
+					switch d.Arg % 7 {
+					case 0:
 						other, err := s.authorize(s.scope().Name, clientID, "other")
 						x.NoErr(err, "second authorize")
 						state = other.State
-					} else {
+					case 1:
 						state = "no-such-state"
+					case 2:
+						state = "./" + cs.State
+					case 3:
+						state = "../client_state/" + cs.State
+					case 4:
+						state = "x/../" + cs.State
+					case 5:
+						state = cs.State + "/."
+					case 6:
+						state = "../nonce/" + nonce
 					}
+					x.Classf("state_wrong:variant=%d", d.Arg%7)
 					defects = append(defects, d.Name)
 				default:
 					ld = append(ld, d)
@@ -394,6 +434,43 @@ func (s *c02State) mainCode() func() c02TokenResult {
 	for _, d := range defects {
 		x.Class("defect:" + d)
 	}
+	if skip != nil {
+		// no (or not every) presentation was submitted; whatever string is offered as code, nothing may be issued
+		known := cs.State
+		for n := range usedNonces {
+			known = n
+		}
+		if n := s.nonceFor(cs.State, usedNonces); n != "" {
+			known = n // the nonce of the leg that was never answered
+		}
+		hostile := []string{
+			"../client_state/" + cs.State,
+			"../../oauth/client_state/" + cs.State,
+			"x/../../client_state/" + cs.State,
+			"../client_state/./" + cs.State,
+			cs.State,
+			"/oauth/client_state/" + cs.State,
+			"%2E%2E/client_state/" + cs.State,
+			"..%2Fclient_state%2F" + cs.State,
+			"../nonce/" + known,
+			"..\\client_state\\" + cs.State,
+		}
+		k := (skip.Arg / 2) % len(hostile)
+		if code != "" && k == 4 {
+			k = 0
+		}
+		x.Classf("code_instead_of_presentation:variant=%d,legs-run=%d/%d", k, legsToRun, len(legs))
+		x.Class("defect:code_instead_of_presentation")
+		x.Classf("ndefects:%d", 1)
+		body := HandleTokenRequestFormdataRequestBody{GrantType: oauth.AuthorizationCodeGrantType, Code: c02Ptr(hostile[k]), ClientId: c02Ptr(clientID), CodeVerifier: c02Ptr(cs.Verifier)}
+		send := func() c02TokenResult { return s.callToken(body, c.DPoP) }
+		res := send()
+		s.judge("main", res, []string{"code_instead_of_presentation"})
+		if res.Token != nil {
+			s.record(res, clientID, s.scope().Name, reqs, rds).Tainted = true
+		}
+		return send
+	}
 	if code == "" {
 		if _, soft := c02Strict(defects); soft && len(defects) > 0 && len(defects) == len(c02Soft(defects)) {
 			x.Classf("ndefects:%d", 0)
@@ -419,6 +496,12 @@ func (s *c02State) mainCode() func() c02TokenResult {
 		switch d.Name {
 		case "code_wrong":
 			body.Code = c02Ptr([]string{code + "x", code[:len(code)-1], "", strings.ToUpper(code) + "~"}[d.Arg%4])
+		case "code_path_variant":
+			// a string that is not the code, though a path-normalising key lookup would land on it
+			v := []string{"./" + code, code + "/.", code + "/", "x/../" + code, "../code/" + code, "../../oauth/code/" + code,
+				"/" + code, "oauth/code/" + code, "%2E/" + code, code + "%2F", ".//" + code}
+			body.Code = c02Ptr(v[d.Arg%len(v)])
+			x.Classf("code_path_variant:variant=%d", d.Arg%len(v))
 		case "token_client_id_wrong":
 			body.ClientId = c02Ptr([]string{c02ClientIDs[1], clientID + "/", ""}[d.Arg%3])
 		case "verifier_wrong":
@@ -494,7 +577,10 @@ func (s *c02State) history(resend func() c02TokenResult) {
 			if target != nil {
 				tok = target.Token
 			}
-			g := []string{tok + "x", tok[:len(tok)-1], strings.ToUpper(tok) + strings.ToLower(tok), "serveraccesstoken/" + tok, " " + tok, "%"}[op.Arg%6]
+			gs := []string{tok + "x", tok[:len(tok)-1], strings.ToUpper(tok) + strings.ToLower(tok), "serveraccesstoken/" + tok, " " + tok, "%",
+				"./" + tok, tok + "/.", "x/../" + tok, "../serveraccesstoken/" + tok, tok + "/", "../../serveraccesstoken/" + tok}
+			g := gs[op.Arg%len(gs)]
+			x.Classf("history:garbage:variant=%d", op.Arg%len(gs))
 			if g == tok {
 				continue
 			}
